@@ -31,11 +31,13 @@ type Decision struct {
 }
 
 type Input struct {
-	Name  string
-	Kind  string // bytes | int | bool | token | spell | opaque
-	Terms []*Term
-	Lang  int
-	Aux   string
+	Name     string
+	Kind     string // bytes | int | bool | token | spell | opaque
+	Terms    []*Term
+	Lang     int
+	Aux      string
+	HasRange bool // int input with constant bounds
+	Lo, Hi   int64
 }
 
 type HApp struct {
